@@ -25,9 +25,12 @@ type Runner struct {
 	Buckets map[string]bool // buckets that must exist
 	// counters for non-triviality rules
 	Writes, Patches, Failed, Deletes, Recreates, AdjacentWrites, ResumableMulti, Restarts, Probes, Skipped int
-	lastWrite                                                                             string
-	formRot                                                                               int
-	SkipList                                                                              bool // do not compare listing order (checks that own listing semantics do it themselves)
+	// FileNames: the program is meant to stay within names that the file store can hold; a request whose name is in
+	// directory conflict with a live object at that moment is skipped (on both stores, so that traces stay aligned).
+	FileNames bool
+	lastWrite string
+	formRot   int
+	SkipList  bool // do not compare listing order (checks that own listing semantics do it themselves)
 }
 
 func NewRunner(e *Emu) *Runner {
@@ -61,7 +64,7 @@ func condQuery(v url.Values, extra url.Values) url.Values {
 func (r *Runner) Do(op *Op) string {
 	r.N++
 	var mis string
-	if op.K != "probe" && r.unrepresentable(op) {
+	if r.FileNames && op.K != "probe" && r.unrepresentable(op) {
 		// A name that is a directory of (or lies below) a live object cannot be a file of the file store at this
 		// moment: outside the stated domain ("names representable as files"), so the request is not sent.
 		r.label("skipped-name-not-representable-now")
@@ -592,7 +595,7 @@ func (r *Runner) VerifyAll() string {
 	for _, k := range dk {
 		i := strings.Index(k, "/")
 		b, n := k[:i], k[i+1:]
-		if r.M.Get(b, n) != nil || r.DirConflict(b, n) {
+		if r.M.Get(b, n) != nil || (r.FileNames && r.DirConflict(b, n)) {
 			continue
 		}
 		if mis := r.checkMeta(b, n); mis != "" {
